@@ -291,7 +291,7 @@ std::string gen_str(Src &s, const char *alpha, size_t alen, size_t maxlen) {
 }  // namespace
 
 static bool g_conc_only = false;
-bool vf_configure(Ctx &c) {
+bool vf_configure(Ctx &c) { g_errno_repoison = 1;
     if (c.mode != "C19") return false;
     c.deciding = FUNC | MEM | CRASH | HANG; c.noteonly = LEAK;
     g_conc_only = getenv("VF_CONC_ONLY") != nullptr;
